@@ -246,7 +246,7 @@ def c11(tier, replay):
     # have a mate in one for the mover ("mating") or where the bare king has moves that walk into one and moves that do not ("avoid")
     fam_cov = {}
     extra = []
-    for fam, tagname, smp in (("mating", "MATE1", 80 if q else 10), ("avoid", "AVOID", 240 if q else 40), ("minor", "MATE1", 20 if q else 2)):
+    for fam, tagname, smp in (("mating", "MATE1", 80 if q else 40), ("avoid", "AVOID", 240 if q else 120), ("minor", "MATE1", 20 if q else 6)):
         r = vcommon.tlc("Fam", "Fam_%s.cfg" % ("mating" if fam == "minor" else fam), env={"FAMILY": fam, "SAMPLE": str(smp), "OFFSET": str(vcommon.seed() % smp)},
                         workers=vcommon.NCPU, xmx="8g", timeout=3000)
         if not r["ok"]:
